@@ -289,10 +289,10 @@ def run(ctx: Ctx):
     scen = rig.SCENARIOS if ctx.thorough else rig.SCENARIOS[:6]
     for rel in scen:
         base = rig.load_cfg(rel)
-        variants = [base] + [rig.mutate_cfg(base, rng) for _ in range(ctx.scale(1, 6))]
+        variants = [base] + [rig.mutate_cfg(base, rng) for _ in range(ctx.scale(2, 6))]
         for vi, cfg in enumerate(variants):
             try:
-                res = env_trajectory(ctx, rel, cfg, rng, episodes=ctx.scale(2, 3), steps=ctx.scale(25, 120))
+                res = env_trajectory(ctx, rel, cfg, rng, episodes=ctx.scale(2, 3), steps=ctx.scale(30, 120))
             except Exception as e:  # noqa: BLE001 - an exception out of reset/step IS an observation failure when it comes from observe()
                 import traceback
                 tb = traceback.format_exc()
